@@ -171,7 +171,7 @@ def gen_array():
         is_all = 'true' if op == 'all' else 'false'
         h = 'k_c14_%s_%s_%d_e%d_p%d' % (op, modes[mode], n, epat, ppat)
         props = 'C14,C04,C06,C01'
-        out.append('    //@ob name=C14.%s.%s.%d.e%d.p%d harness=%s props=%s tier=%s strength=bounded bound="%s; %d elements; element/predicate success pattern e=%s p=%s; values and predicate answers symbolic" fns=op::array::%s stubs=4 timeout=1500 cutdrop=%d group=medium'
+        out.append('    //@ob name=C14.%s.%s.%d.e%d.p%d harness=%s props=%s tier=%s strength=bounded bound="%s; %d elements; element/predicate success pattern e=%s p=%s; values and predicate answers symbolic" fns=op::array::%s stubs=4 timeout=200 cutdrop=%d group=medium'
                    % (op, modes[mode], n, epat, ppat, h, props, tier, note, n, bin(epat), bin(ppat), op, 1 if mode in (0, 3, 5) else 2))
         out.append('    //@ desc="%s: truth value, error cases, short-circuit evaluation log and scoping (literal-array elements evaluated against the outer data, computed elements passed as data UNPARSED, predicate sees the element) equal the spec"' % op)
         out.append('    quant_harness!(%s, %s, %d, %d, %d, %d);' % (h, is_all, mode, n, epat, ppat))
